@@ -50,6 +50,8 @@ Next ==
          /\ kind # "Cmp" => same = 0
          /\ (kind = "Cmp" /\ mode \in {"unsafe", "incr"}) => same = 1
          /\ ~(kind = "Cmp" /\ mode = "incr")
+         (* a comparison into an operand can only be same-type (the operand is not a bool tensor) *)
+         /\ (kind = "Cmp" /\ mode \in {"reuseA", "reuseB"}) => same = 1
          /\ DoAll(Program(kind, s, form, la, lb, mode, ld, same))
 
 (* mismatched shapes must be refused *)
